@@ -524,4 +524,11 @@ def rule_f(ctx):
                     sorted(set(bad))))
 
 
-RULES = [('C16.a', rule_a), ('C16.b', rule_b), ('C16.c', rule_c), ('C16.d', rule_d), ('C16.b', rule_plumbing), ('C16.e', rule_e), ('C02.a', rule_setup_layout), ('C16.f', rule_f)]
+
+def rule_error_conversion(ctx):
+    """The setup error codes C16.d decides at the raise sites reach the wire through exception_to_error_frame, and the client learns them through error_frame_to_exception (shared C12.l)."""
+    from .c12 import rule_error_conversion as conv
+    conv(ctx, 'C12.l')
+
+
+RULES = [('C16.a', rule_a), ('C16.b', rule_b), ('C16.c', rule_c), ('C16.d', rule_d), ('C16.b', rule_plumbing), ('C16.e', rule_e), ('C02.a', rule_setup_layout), ('C16.f', rule_f), ('C12.l', rule_error_conversion)]
